@@ -7,6 +7,9 @@
 //
 // One source, several translation units: the 7 x 10 x 10 (rep combination, period, period) template groups are
 // distributed over C12_NSLICES harness binaries (-DC12_SLICE=k -DC12_NSLICES=n) so that they compile in parallel.
+// To keep the instantiated code small, the templates only contain one-line wrappers ("ops") around the etl and std
+// calls; domain computation, comparison with the oracles and message formatting are ordinary functions driven by a
+// per-group descriptor.
 //
 // Domain (soundness): a call is only made when the exact result AND every intermediate the standard mandates
 // ([time.duration.cast]: CR = common_type<ToRep, Rep, intmax_t>, count*CF::num/CF::den; [time.duration.nonmember],
@@ -23,14 +26,17 @@
 // time_point_cast (returns ToDuration constructed from a time_point: ill-formed), the converting time_point constructor
 // (calls a misspelled member), round<> to a floating-point duration (ill-formed in etl, constrained away in std).
 #include <etl/chrono.hpp>
+#include <etl/numeric.hpp>
 #include <etl/ratio.hpp>
 
+#include <array>
 #include <bit>
 #include <chrono>
 #include <cinttypes>
 #include <numeric>
 #include <ratio>
 #include <type_traits>
+#include <utility>
 
 #include "verif.hpp"
 
@@ -65,11 +71,6 @@ auto show_case(Case const& k) -> std::string
     std::snprintf(b, sizeof b, "%s %d %d %d %" PRId64 " %d %" PRId64, k.sub, k.combo, k.i, k.j, k.c1, k.frac, k.c2);
     return b;
 }
-
-struct Fail {
-    bool set{false};
-    std::string detail;
-};
 
 // ------------------------------------------------------------------------------------------------ exact arithmetic
 constexpr i128 P53 = i128{1} << 53;
@@ -119,37 +120,56 @@ auto s128(i128 v) -> std::string
     return neg ? "-" + s : s;
 }
 
+// a count of any of the three reps, passed through the non-template driver
+struct Num {
+    i64 i{0};
+    f64 f{0};
+};
 template <typename R>
 inline constexpr int kind_of = std::is_floating_point_v<R> ? 2 : (sizeof(R) == 4 ? 0 : 1);
 template <typename R>
-auto rep_name() -> char const*
+constexpr auto get(Num n) -> R
 {
-    return kind_of<R> == 2 ? "double" : kind_of<R> == 0 ? "int32" : "int64";
+    if constexpr (std::is_floating_point_v<R>) {
+        return static_cast<R>(n.f);
+    } else {
+        return static_cast<R>(n.i);
+    }
 }
-template <typename T>
-auto vstr(T v) -> std::string
+template <typename R>
+constexpr auto put(R v) -> Num
 {
-    if constexpr (std::is_floating_point_v<T>) {
+    if constexpr (std::is_floating_point_v<R>) {
+        return Num{0, static_cast<f64>(v)};
+    } else {
+        return Num{static_cast<i64>(v), 0};
+    }
+}
+// kind tag for an arbitrary type (3 = something else: reported as a type mismatch)
+template <typename T>
+inline constexpr int tkind = std::is_same_v<T, i32> ? 0 : std::is_same_v<T, i64> ? 1 : std::is_same_v<T, f64> ? 2 : std::is_same_v<T, long long> ? 4 : 3;
+
+auto kname(int k) -> char const* { return k == 0 ? "int32" : k == 1 ? "int64" : k == 2 ? "double" : "?"; }
+auto nstr(int k, Num v) -> std::string
+{
+    if (k == 2) {
         char b[64];
-        std::snprintf(b, sizeof b, "%.17g", static_cast<double>(v));
+        std::snprintf(b, sizeof b, "%.17g", v.f);
         return b;
-    } else if constexpr (std::is_same_v<T, bool>) {
-        return v ? "true" : "false";
-    } else {
-        return std::to_string(v);
     }
+    return std::to_string(v.i);
 }
-template <typename T>
-auto same(T a, T b) -> bool
+auto nsame(int k, Num a, Num b) -> bool { return k == 2 ? std::bit_cast<std::uint64_t>(a.f) == std::bit_cast<std::uint64_t>(b.f) : a.i == b.i; }
+// value equality (exact oracle: the rational value has no signed zero)
+auto xsame(int k, Num a, Num b) -> bool { return k == 2 ? a.f == b.f : a.i == b.i; }
+// exact rational x/scale as a count of kind k
+auto exact_num(int k, i128 x, i64 scale) -> Num
 {
-    if constexpr (std::is_floating_point_v<T>) {
-        return std::bit_cast<std::uint64_t>(static_cast<double>(a)) == std::bit_cast<std::uint64_t>(static_cast<double>(b));
-    } else {
-        return a == b;
-    }
+    if (k == 2) { return Num{0, static_cast<f64>(static_cast<i64>(x)) / static_cast<f64>(scale)}; }
+    return Num{static_cast<i64>(x), 0};
 }
 
-// ------------------------------------------------------------------------------------------------ periods
+// ------------------------------------------------------------------------------------------------ periods, rep combinations
 template <int I>
 struct Per;
 #define C12_PER(I, N, D)                                                                                               \
@@ -157,7 +177,6 @@ struct Per;
     struct Per<I> {                                                                                                    \
         using e = etl::ratio<N, D>;                                                                                    \
         using s = std::ratio<N, D>;                                                                                    \
-        static constexpr i64 n = N, d = D;                                                                             \
     };
 C12_PER(0, 1, 1000000000)
 C12_PER(1, 1, 1000000)
@@ -169,12 +188,11 @@ C12_PER(6, 86400, 1)
 C12_PER(7, 1, 3)
 C12_PER(8, 5, 7)
 C12_PER(9, 1001, 30000)
-constexpr int NPER = 10;
-constexpr i64 PN[NPER] = {1, 1, 1, 1, 60, 3600, 86400, 1, 5, 1001};
-constexpr i64 PD[NPER] = {1000000000, 1000000, 1000, 1, 1, 1, 1, 3, 7, 30000};
+constexpr int NPER      = 10;
+constexpr i64 PN[NPER]  = {1, 1, 1, 1, 60, 3600, 86400, 1, 5, 1001};
+constexpr i64 PD[NPER]  = {1000000000, 1000000, 1000, 1, 1, 1, 1, 3, 7, 30000};
 auto per_name(int i) -> std::string { return "ratio<" + std::to_string(PN[i]) + "," + std::to_string(PD[i]) + ">"; }
 
-// rep combinations (source/lhs rep, target/rhs rep)
 template <int C>
 struct Combo;
 #define C12_COMBO(C, A, B)                                                                                             \
@@ -190,30 +208,304 @@ C12_COMBO(3, i64, i32)
 C12_COMBO(4, f64, f64)
 C12_COMBO(5, i64, f64)
 C12_COMBO(6, f64, i64)
-constexpr int NCOMBO = 7;
+constexpr int NCOMBO       = 7;
+constexpr int CK1[NCOMBO]  = {1, 0, 0, 1, 2, 1, 2};
+constexpr int CK2[NCOMBO]  = {1, 0, 1, 0, 2, 2, 1};
 
-// ------------------------------------------------------------------------------------------------ the model of a group
-struct Model {
+// ------------------------------------------------------------------------------------------------ the two libraries
+struct LibE {
+    template <typename R, int I>
+    using dur = ec::duration<R, typename Per<I>::e>;
+    template <typename A, typename B>
+    using ct = etl::common_type_t<A, B>;
+    template <typename D>
+    using tp = ec::time_point<ec::system_clock, D>;
+    template <typename To, typename D>
+    static constexpr auto cast(D const& d) { return ec::duration_cast<To>(d); }
+    template <typename To, typename D>
+    static constexpr auto floor(D const& d) { return ec::floor<To>(d); }
+    template <typename To, typename D>
+    static constexpr auto ceil(D const& d) { return ec::ceil<To>(d); }
+    template <typename To, typename D>
+    static constexpr auto round(D const& d) { return ec::round<To>(d); }
+    template <typename D>
+    static constexpr auto abs(D const& d) { return ec::abs(d); }
+};
+struct LibS {
+    template <typename R, int I>
+    using dur = sc::duration<R, typename Per<I>::s>;
+    template <typename A, typename B>
+    using ct = std::common_type_t<A, B>;
+    template <typename D>
+    using tp = sc::time_point<sc::system_clock, D>;
+    template <typename To, typename D>
+    static constexpr auto cast(D const& d) { return sc::duration_cast<To>(d); }
+    template <typename To, typename D>
+    static constexpr auto floor(D const& d) { return sc::floor<To>(d); }
+    template <typename To, typename D>
+    static constexpr auto ceil(D const& d) { return sc::ceil<To>(d); }
+    template <typename To, typename D>
+    static constexpr auto round(D const& d) { return sc::round<To>(d); }
+    template <typename D>
+    static constexpr auto abs(D const& d) { return sc::abs(d); }
+};
+
+// compile-time facts of one library about one group, reported at run time
+struct Facts {
+    long long ct_num, ct_den;   // period of the common type
+    int ct_rep;                 // kind of its rep
+    long long p1_num, p1_den;   // period member of the first duration
+    int r1;                     // rep member of the first duration
+    bool convertible, constructible; // D1 -> D2
+    bool from_scalar[6];        // D1 constructible from / convertible from int32, int64, double
+    int cast_rep;               // type of duration_cast<D2>(D1).count()
+    long long plus_num, plus_den;
+    int plus_rep;               // D1 + D2
+    long long mod_num, mod_den;
+    int mod_rep;                // D1 % D2 (integers)
+    int div_type;               // D1 / D2
+};
+
+// thin wrappers; every function takes/returns Num so that the driver is not a template
+struct OpsTable {
+    Facts facts;
+    Num (*cast)(Num);
+    Num (*floor)(Num);
+    Num (*ceil)(Num);
+    Num (*round)(Num);
+    Num (*common1)(Num);
+    Num (*common2)(Num);
+    Num (*convert)(Num);
+    void (*plus_minus)(Num, Num, Num*);   // out[0] = a + b, out[1] = a - b
+    void (*div_mod)(Num, Num, Num*);      // out[0] = a / b, out[1] = (a % b).count() (integers only)
+    unsigned (*cmp)(Num, Num);            // bit o: == != < <= > >=
+    unsigned (*tp_cmp)(Num, Num);
+    void (*tp_fcr)(Num, Num*);            // floor, ceil, round of a time_point
+    void (*tp_misc)(Num, Num*);           // time_since_epoch, default, min, max
+    void (*tp_members)(Num, Num, Num*);   // += -= ++ -- (10 values)
+    void (*unary)(int, Num, Num, Num*);   // see driver
+};
+
+template <typename L, typename R1, typename R2, int I, int J>
+struct Ops {
+    using D1 = typename L::template dur<R1, I>;
+    using D2 = typename L::template dur<R2, J>;
+    using CT = typename L::template ct<D1, D2>;
+    using RC = typename CT::rep;
+    using T1 = typename L::template tp<D1>;
+    using T2 = typename L::template tp<D2>;
+    static constexpr bool is_int = !std::is_floating_point_v<RC>;
+    static constexpr bool to_int = !std::is_floating_point_v<R2>;
+    static constexpr bool same12 = I == J && std::is_same_v<R1, R2>;
+
+    static auto d1(Num c) -> D1 { return D1{get<R1>(c)}; }
+    static auto d2(Num c) -> D2 { return D2{get<R2>(c)}; }
+
+    static auto cast(Num c) -> Num { return put(L::template cast<D2>(d1(c)).count()); }
+    static auto floor(Num c) -> Num { return put(L::template floor<D2>(d1(c)).count()); }
+    static auto ceil(Num c) -> Num { return put(L::template ceil<D2>(d1(c)).count()); }
+    static auto round(Num c) -> Num
+    {
+        if constexpr (to_int) {
+            return put(L::template round<D2>(d1(c)).count());
+        } else {
+            return c;
+        }
+    }
+    static auto common1(Num c) -> Num { return put(CT(d1(c)).count()); }
+    static auto common2(Num c) -> Num { return put(CT(d2(c)).count()); }
+    static auto convert(Num c) -> Num
+    {
+        if constexpr (std::is_constructible_v<D2, D1>) {
+            return put(D2(d1(c)).count());
+        } else {
+            return c;
+        }
+    }
+    static void plus_minus(Num a, Num b, Num* out)
+    {
+        out[0] = put((d1(a) + d2(b)).count());
+        out[1] = put((d1(a) - d2(b)).count());
+    }
+    static void div_mod(Num a, Num b, Num* out)
+    {
+        out[0] = put(d1(a) / d2(b));
+        if constexpr (is_int) { out[1] = put((d1(a) % d2(b)).count()); }
+    }
+    static auto cmp(Num a, Num b) -> unsigned
+    {
+        auto const x = d1(a);
+        auto const y = d2(b);
+        return (x == y ? 1U : 0U) | (x != y ? 2U : 0U) | (x < y ? 4U : 0U) | (x <= y ? 8U : 0U) | (x > y ? 16U : 0U) | (x >= y ? 32U : 0U);
+    }
+    static auto tp_cmp(Num a, Num b) -> unsigned
+    {
+        T1 const x{d1(a)};
+        T2 const y{d2(b)};
+        return (x == y ? 1U : 0U) | (x != y ? 2U : 0U) | (x < y ? 4U : 0U) | (x <= y ? 8U : 0U) | (x > y ? 16U : 0U) | (x >= y ? 32U : 0U);
+    }
+    static void tp_fcr(Num a, Num* out)
+    {
+        T1 const x{d1(a)};
+        out[0] = put(L::template floor<D2>(x).time_since_epoch().count());
+        out[1] = put(L::template ceil<D2>(x).time_since_epoch().count());
+        if constexpr (to_int) { out[2] = put(L::template round<D2>(x).time_since_epoch().count()); }
+    }
+    static void tp_misc(Num a, Num* out)
+    {
+        out[0] = put(T1{d1(a)}.time_since_epoch().count());
+        out[1] = put(T1{}.time_since_epoch().count());
+        out[2] = put(T1::min().time_since_epoch().count());
+        out[3] = put(T1::max().time_since_epoch().count());
+    }
+    static void tp_members(Num a, Num s, Num* out)
+    {
+        if constexpr (same12) {
+            T1 p{d1(a)}, q{d1(a)}, r{d1(a)}, u{d1(a)}, w{d1(a)}, z{d1(a)};
+            p += d1(s);
+            q -= d1(s);
+            out[0] = put(p.time_since_epoch().count());
+            out[1] = put(q.time_since_epoch().count());
+            out[2] = put((++r).time_since_epoch().count());
+            out[3] = put((--u).time_since_epoch().count());
+            out[4] = put((w++).time_since_epoch().count());
+            out[5] = put((z--).time_since_epoch().count());
+            out[6] = put(r.time_since_epoch().count());
+            out[7] = put(u.time_since_epoch().count());
+            out[8] = put(w.time_since_epoch().count());
+            out[9] = put(z.time_since_epoch().count());
+        }
+    }
+    // which: 0 count,+,zero,min,max | 1 -,abs | 2 ++/-- | 3 += -= | 4 *= | 5 /= | 6 %= scalar, %= duration
+    static void unary(int which, Num a, Num s, Num* out)
+    {
+        if constexpr (same12) {
+            auto const sc_ = get<R1>(s);
+            switch (which) {
+            case 0:
+                out[0] = put(d1(a).count());
+                out[1] = put((+d1(a)).count());
+                out[2] = put(D1::zero().count());
+                out[3] = put(D1::min().count());
+                out[4] = put(D1::max().count());
+                break;
+            case 1:
+                out[0] = put((-d1(a)).count());
+                out[1] = put(L::abs(d1(a)).count());
+                break;
+            case 2: {
+                D1 p{d1(a)}, q{d1(a)}, r{d1(a)}, u{d1(a)};
+                out[0] = put((++p).count());
+                out[1] = put((--q).count());
+                out[2] = put((r++).count());
+                out[3] = put((u--).count());
+                out[4] = put(p.count());
+                out[5] = put(q.count());
+                out[6] = put(r.count());
+                out[7] = put(u.count());
+                break;
+            }
+            case 3: {
+                D1 p{d1(a)}, q{d1(a)};
+                p += d1(s);
+                q -= d1(s);
+                out[0] = put(p.count());
+                out[1] = put(q.count());
+                break;
+            }
+            case 4: {
+                D1 p{d1(a)};
+                p *= sc_;
+                out[0] = put(p.count());
+                break;
+            }
+            case 5: {
+                D1 p{d1(a)};
+                p /= sc_;
+                out[0] = put(p.count());
+                break;
+            }
+            case 6:
+                if constexpr (!std::is_floating_point_v<R1>) {
+                    D1 p{d1(a)}, q{d1(a)};
+                    p %= sc_;
+                    q %= d1(s);
+                    out[0] = put(p.count());
+                    out[1] = put(q.count());
+                }
+                break;
+            default: break;
+            }
+        }
+    }
+
+    static constexpr auto facts() -> Facts
+    {
+        Facts f{};
+        f.ct_num        = CT::period::num;
+        f.ct_den        = CT::period::den;
+        f.ct_rep        = tkind<RC>;
+        f.p1_num        = D1::period::num;
+        f.p1_den        = D1::period::den;
+        f.r1            = tkind<typename D1::rep>;
+        f.convertible   = std::is_convertible_v<D1, D2>;
+        f.constructible = std::is_constructible_v<D2, D1>;
+        f.from_scalar[0] = std::is_constructible_v<D1, i32>;
+        f.from_scalar[1] = std::is_constructible_v<D1, i64>;
+        f.from_scalar[2] = std::is_constructible_v<D1, f64>;
+        f.from_scalar[3] = std::is_convertible_v<i32, D1>;
+        f.from_scalar[4] = std::is_convertible_v<i64, D1>;
+        f.from_scalar[5] = std::is_convertible_v<f64, D1>;
+        f.cast_rep      = tkind<decltype(L::template cast<D2>(std::declval<D1>()).count())>;
+        using PL        = decltype(std::declval<D1>() + std::declval<D2>());
+        f.plus_num      = PL::period::num;
+        f.plus_den      = PL::period::den;
+        f.plus_rep      = tkind<typename PL::rep>;
+        if constexpr (is_int) {
+            using MD  = decltype(std::declval<D1>() % std::declval<D2>());
+            f.mod_num = MD::period::num;
+            f.mod_den = MD::period::den;
+            f.mod_rep = tkind<typename MD::rep>;
+        }
+        f.div_type = tkind<decltype(std::declval<D1>() / std::declval<D2>())>;
+        return f;
+    }
+    static constexpr OpsTable table{facts(), &cast, &floor, &ceil, &round, &common1, &common2, &convert, &plus_minus, &div_mod, &cmp, &tp_cmp, &tp_fcr, &tp_misc, &tp_members, &unary};
+};
+
+// ------------------------------------------------------------------------------------------------ group descriptor
+struct GroupDesc {
+    int C, I, J;
     int k1, k2, kc;   // rep kinds of source, target, common rep
     i64 N, D;         // P1/P2 reduced (conversion factor of duration_cast<To>(From))
     i64 f1, f2;       // P1/CT, P2/CT (integers), CT = ratio<gcd(n1,n2), lcm(d1,d2)>
     i64 ctn, ctd;     // CT
+    OpsTable const* e;
+    OpsTable const* s;
+    char const* broken; // non-null: the group cannot be instantiated (message), with the two lcm operands
+    i64 ba, bb;
+    [[nodiscard]] auto same12() const -> bool { return I == J && k1 == k2; }
+    [[nodiscard]] auto n1() const -> std::string { return std::string("duration<") + kname(k1) + "," + per_name(I) + ">"; }
+    [[nodiscard]] auto n2() const -> std::string { return std::string("duration<") + kname(k2) + "," + per_name(J) + ">"; }
 };
-constexpr auto make_model(int k1, int k2, int i, int j) -> Model
+constexpr auto make_desc(int c, int i, int j) -> GroupDesc
 {
-    Model m{};
-    m.k1   = k1;
-    m.k2   = k2;
-    m.kc   = (k1 == 2 || k2 == 2) ? 2 : (k1 == 1 || k2 == 1) ? 1 : 0;
-    i64 a  = PN[i] * PD[j];
-    i64 b  = PD[i] * PN[j];
-    i64 g  = std::gcd(a, b);
-    m.N    = a / g;
-    m.D    = b / g;
-    m.ctn  = std::gcd(PN[i], PN[j]);
-    m.ctd  = std::lcm(PD[i], PD[j]);
-    m.f1   = (PN[i] / m.ctn) * (m.ctd / PD[i]);
-    m.f2   = (PN[j] / m.ctn) * (m.ctd / PD[j]);
+    GroupDesc m{};
+    m.C   = c;
+    m.I   = i;
+    m.J   = j;
+    m.k1  = CK1[c];
+    m.k2  = CK2[c];
+    m.kc  = (m.k1 == 2 || m.k2 == 2) ? 2 : (m.k1 == 1 || m.k2 == 1) ? 1 : 0;
+    i64 a = PN[i] * PD[j];
+    i64 b = PD[i] * PN[j];
+    i64 g = std::gcd(a, b);
+    m.N   = a / g;
+    m.D   = b / g;
+    m.ctn = std::gcd(PN[i], PN[j]);
+    m.ctd = std::lcm(PD[i], PD[j]);
+    m.f1  = (PN[i] / m.ctn) * (m.ctd / PD[i]);
+    m.f2  = (PN[j] / m.ctn) * (m.ctd / PD[j]);
     return m;
 }
 
@@ -221,23 +513,19 @@ struct Val { // a count: n or n/8
     i64 n;
     int frac;
     [[nodiscard]] auto scale() const -> i64 { return frac ? 8 : 1; }
-    template <typename R>
-    [[nodiscard]] auto as() const -> R
+    [[nodiscard]] auto num(int kind) const -> Num
     {
-        if constexpr (std::is_floating_point_v<R>) {
-            return frac ? static_cast<R>(n) / R(8) : static_cast<R>(n);
-        } else {
-            return static_cast<R>(n);
-        }
+        if (kind == 2) { return Num{0, frac ? static_cast<f64>(n) / 8.0 : static_cast<f64>(n)}; }
+        return Num{n, 0};
     }
 };
 
 struct CastDom {
     bool ok;    // no UB in the mandated formula and the result is representable: etl must equal std
-    bool exact; // additionally the result must equal the exact rational value (num/den truncated / exact)
+    bool exact; // additionally the result must equal the exact rational value
     i128 num, den;
 };
-auto cast_dom(Model const& m, Val v) -> CastDom
+auto cast_dom(GroupDesc const& m, Val v) -> CastDom
 {
     CastDom d{};
     d.num = i128{v.n} * m.N;
@@ -254,8 +542,9 @@ auto cast_dom(Model const& m, Val v) -> CastDom
     }
     return d;
 }
-// are d (count v of P1), and the candidates t-1, t, t+1 (counts of P2) all convertible to the common type?
-auto round_dom(Model const& m, Val v, i128 t) -> bool
+auto cast_exact(GroupDesc const& m, Val v, CastDom const& d) -> Num { return m.k2 == 2 ? exact_num(2, d.num / m.D, v.scale()) : exact_num(m.k2, q_trunc(d.num, d.den), 1); }
+// are d (count v of P1) and the candidates t-1, t, t+1 (counts of P2) all convertible to the common type?
+auto round_dom(GroupDesc const& m, Val v, i128 t) -> bool
 {
     i128 A = i128{v.n} * m.f1; // scaled by v.scale()
     if (m.kc != 2) {
@@ -274,16 +563,16 @@ auto round_dom(Model const& m, Val v, i128 t) -> bool
     return true;
 }
 
-// statistics are kept in plain counters and flushed once per group (vf::eval / vf::label cost a map lookup per call)
-struct Tally { // plain counters, no allocation in the hot loop
-    std::uint64_t n[16]{};
-    std::uint64_t lab[16][2]{};
-};
-Tally g_t;
+// ------------------------------------------------------------------------------------------------ counters
 enum SubId { S_CAST, S_FLOOR, S_CEIL, S_ROUND, S_COMMON, S_CONVERT, S_UNARY, S_ARITH, S_CMP, S_TP, S_ALIAS, S_COUNT };
 char const* const SUBS[S_COUNT] = {"cast", "floor", "ceil", "round", "common", "convert", "unary", "arith", "cmp", "time_point", "alias"};
 enum LabId { L_NEG, L_NONINT, L_TIE, L_CAST_DOM, L_ROUND_DOM, L_ARITH_DOM, L_BIG, L_COUNT };
 char const* const LABS[L_COUNT] = {"count.negative", "pair.non_integer_ratio", "round.exact_tie", "cast.in_domain", "floor_ceil_round.in_domain", "arith.in_domain", "count.beyond_2^31"};
+struct Tally { // plain counters, flushed once per group (vf::eval / vf::label cost a map lookup per call)
+    std::uint64_t n[S_COUNT]{};
+    std::uint64_t lab[L_COUNT][2]{};
+};
+Tally g_t;
 void lab(LabId l, bool hit)
 {
     g_t.lab[l][0] += hit ? 1 : 0;
@@ -312,585 +601,531 @@ void flush_tally()
         }                                                                                                              \
     } while (0)
 
-// ------------------------------------------------------------------------------------------------ group
-template <typename R1, typename R2, int I, int J, int C>
-struct Group {
-    using E1  = ec::duration<R1, typename Per<I>::e>;
-    using E2  = ec::duration<R2, typename Per<J>::e>;
-    using S1  = sc::duration<R1, typename Per<I>::s>;
-    using S2  = sc::duration<R2, typename Per<J>::s>;
-    using ECT = etl::common_type_t<E1, E2>;
-    using SCT = std::common_type_t<S1, S2>;
-    using RC  = typename SCT::rep;
-    static constexpr int K1 = kind_of<R1>, K2 = kind_of<R2>, KC = kind_of<RC>;
-    static constexpr Model M = make_model(K1, K2, I, J);
+auto mk(GroupDesc const& g, char const* sub, Val v, i64 c2 = 0) -> Case { return Case{sub, g.C, g.I, g.J, v.n, v.frac, c2}; }
 
-    static auto n1() -> std::string { return std::string("duration<") + rep_name<R1>() + "," + per_name(I) + ">"; }
-    static auto n2() -> std::string { return std::string("duration<") + rep_name<R2>() + "," + per_name(J) + ">"; }
-    static auto mk(char const* sub, Val v, i64 c2 = 0) -> Case { return Case{sub, C, I, J, v.n, v.frac, c2}; }
-
-    // expected value of an exact rational result x/scale in rep R
-    template <typename R>
-    static auto exact_as(i128 x, i64 scale) -> R
-    {
-        if constexpr (std::is_floating_point_v<R>) {
-            return static_cast<R>(static_cast<i64>(x)) / static_cast<R>(scale);
-        } else {
-            return static_cast<R>(x); // scale is 1 for every integer result
-        }
+// ------------------------------------------------------------------------------------------------ checks (non-template)
+void chk_cast(GroupDesc const& g, Val v)
+{
+    Case k = mk(g, "cast", v);
+    vf::Flight<Case> fl("cast", k);
+    auto const dom = cast_dom(g, v);
+    lab(L_CAST_DOM, dom.ok);
+    if (!dom.ok) { return; }
+    Num const c  = v.num(g.k1);
+    Num const re = g.e->cast(c);
+    Num const rs = g.s->cast(c);
+    auto const what = [&] { return std::string("duration_cast<" + g.n2() + ">(" + g.n1() + "(" + nstr(g.k1, c) + "))"); };
+    REQUIRE(k, g.e->facts.cast_rep == g.s->facts.cast_rep, what() + ": type of count() differs from std");
+    REQUIRE(k, nsame(g.k2, re, rs), what() + ": etl " + nstr(g.k2, re) + " std::chrono " + nstr(g.k2, rs));
+    if (dom.exact) {
+        Num const ex = cast_exact(g, v, dom);
+        REQUIRE(k, xsame(g.k2, re, ex), what() + ": etl " + nstr(g.k2, re) + " exact (" + s128(dom.num) + "/" + s128(dom.den) + " truncated) " + nstr(g.k2, ex));
     }
-
-    // ---------------------------------------------------------------- duration_cast
-    static void cast(Val v)
-    {
-        Case k = mk("cast", v);
-        vf::Flight<Case> fl("cast", k);
-        auto const dom = cast_dom(M, v);
-        lab(L_CAST_DOM, dom.ok);
-        if (!dom.ok) { return; }
-        auto const c  = v.as<R1>();
-        auto const re = ec::duration_cast<E2>(E1{c}).count();
-        auto const rs = sc::duration_cast<S2>(S1{c}).count();
-        REQUIRE(k, (std::is_same_v<decltype(re), decltype(rs)>), "duration_cast<" + n2() + ">: type of count() differs from std");
-        REQUIRE(k, same(re, rs), "duration_cast<" + n2() + ">(" + n1() + "(" + vstr(c) + ")): etl " + vstr(re) + " std::chrono " + vstr(rs));
-        if (dom.exact) {
-            R2 ex = K2 == 2 ? exact_as<R2>(dom.num / M.D, v.scale()) : exact_as<R2>(q_trunc(dom.num, dom.den), 1);
-            REQUIRE(k, same(re, ex), "duration_cast<" + n2() + ">(" + n1() + "(" + vstr(c) + ")): etl " + vstr(re) + " exact (truncated " + s128(dom.num) + "/" + s128(dom.den) + ") " + vstr(ex));
-        }
-        ++g_t.n[S_CAST];
+    ++g_t.n[S_CAST];
+    if (v.n == -1999 && v.frac == 0 && g.D != 1) {
+        vf::sample("cast", [&] { return what() + " == " + nstr(g.k2, re) + " (exact " + s128(dom.num) + "/" + s128(dom.den) + ")"; });
     }
+}
 
-    // ---------------------------------------------------------------- floor / ceil / round
-    static void fcr(Val v, int which) // 0 floor, 1 ceil, 2 round
-    {
-        char const* sub = which == 0 ? "floor" : which == 1 ? "ceil" : "round";
-        Case k          = mk(sub, v);
-        vf::Flight<Case> fl(sub, k);
-        auto const dom = cast_dom(M, v);
-        bool ok        = dom.ok && dom.exact;
-        i128 t         = 0;
-        if (ok) {
-            if constexpr (K2 == 2) {
-                // floating-point target: only the exactly representable results are specified well enough to compare
-                t  = 0;
-                ok = round_dom(M, v, q_trunc(dom.num, dom.den));
-            } else {
-                t  = q_trunc(dom.num, dom.den);
-                ok = round_dom(M, v, t);
-            }
-        }
-        lab(L_ROUND_DOM, ok);
-        if (!ok) { return; }
-        auto const c = v.as<R1>();
-        if constexpr (K2 == 2) {
-            if (which == 2) { return; } // round<> to a floating-point duration does not exist
-            R2 ex = exact_as<R2>(dom.num / M.D, v.scale());
-            R2 re = which == 0 ? ec::floor<E2>(E1{c}).count() : ec::ceil<E2>(E1{c}).count();
-            R2 rs = which == 0 ? sc::floor<S2>(S1{c}).count() : sc::ceil<S2>(S1{c}).count();
-            REQUIRE(k, same(re, rs) && same(re, ex), std::string(sub) + "<" + n2() + ">(" + n1() + "(" + vstr(c) + ")): etl " + vstr(re) + " std::chrono " + vstr(rs) + " exact " + vstr(ex));
-        } else {
-            i128 exi = which == 0 ? q_floor(dom.num, dom.den) : which == 1 ? q_ceil(dom.num, dom.den) : q_round_even(dom.num, dom.den);
-            R2 ex    = static_cast<R2>(exi);
-            R2 re    = which == 0 ? ec::floor<E2>(E1{c}).count() : which == 1 ? ec::ceil<E2>(E1{c}).count() : ec::round<E2>(E1{c}).count();
-            R2 rs    = which == 0 ? sc::floor<S2>(S1{c}).count() : which == 1 ? sc::ceil<S2>(S1{c}).count() : sc::round<S2>(S1{c}).count();
-            REQUIRE(k, rs == ex, std::string("oracle disagreement (harness bug): std::chrono::") + sub + " " + vstr(rs) + " exact " + vstr(ex) + " for " + n1() + "(" + vstr(c) + ") -> " + n2());
-            REQUIRE(k, re == ex, std::string(sub) + "<" + n2() + ">(" + n1() + "(" + vstr(c) + ")): etl " + vstr(re) + " expected " + vstr(ex) + " (exact value " + s128(dom.num) + "/" + s128(dom.den) + ")");
-            if (which == 2) { lab(L_TIE, q_tie(dom.num, dom.den)); }
-        }
-        ++g_t.n[which == 0 ? S_FLOOR : which == 1 ? S_CEIL : S_ROUND];
+void chk_fcr(GroupDesc const& g, Val v, int which) // 0 floor, 1 ceil, 2 round
+{
+    char const* sub = which == 0 ? "floor" : which == 1 ? "ceil" : "round";
+    Case k          = mk(g, sub, v);
+    vf::Flight<Case> fl(sub, k);
+    if (which == 2 && g.k2 == 2) { return; } // round<> to a floating-point duration does not exist
+    auto const dom = cast_dom(g, v);
+    bool ok        = dom.ok && dom.exact && round_dom(g, v, q_trunc(dom.num, dom.den));
+    lab(L_ROUND_DOM, ok);
+    if (!ok) { return; }
+    Num const c  = v.num(g.k1);
+    Num const re = which == 0 ? g.e->floor(c) : which == 1 ? g.e->ceil(c) : g.e->round(c);
+    Num const rs = which == 0 ? g.s->floor(c) : which == 1 ? g.s->ceil(c) : g.s->round(c);
+    Num ex;
+    if (g.k2 == 2) {
+        // floating-point target: only exactly representable quotients are in the window, the result is the quotient
+        ex = cast_exact(g, v, dom);
+    } else {
+        ex = exact_num(g.k2, which == 0 ? q_floor(dom.num, dom.den) : which == 1 ? q_ceil(dom.num, dom.den) : q_round_even(dom.num, dom.den), 1);
     }
-
-    // ---------------------------------------------------------------- conversion to the common type, static facts
-    static void common(Val v, i64 c2)
-    {
-        Case k = mk("common", v, c2);
-        vf::Flight<Case> fl("common", k);
-        // compile-time facts, reported at run time
-        REQUIRE(k, ECT::period::num == SCT::period::num && ECT::period::den == SCT::period::den,
-            "common_type<" + n1() + "," + n2() + ">::period: etl " + std::to_string(ECT::period::num) + "/" + std::to_string(ECT::period::den) + " std " + std::to_string(SCT::period::num) + "/" + std::to_string(SCT::period::den));
-        REQUIRE(k, (std::is_same_v<typename ECT::rep, RC>), "common_type<" + n1() + "," + n2() + ">::rep differs from std");
-        REQUIRE(k, ECT::period::num == M.ctn && ECT::period::den == M.ctd, "common_type period differs from ratio<gcd(num),lcm(den)>");
-        REQUIRE(k, E1::period::num == Per<I>::n && E1::period::den == Per<I>::d && (std::is_same_v<typename E1::rep, R1>), "duration::period / rep members wrong");
-        i128 A = i128{v.n} * M.f1;
-        i128 B = i128{c2} * M.f2;
-        bool okA, okB, exA, exB;
-        if constexpr (KC != 2) {
-            okA = fits64(A) && fitsk(KC, A);
-            okB = fits64(B) && fitsk(KC, B) && fitsk(K2, c2);
-            exA = okA;
-            exB = okB;
-        } else {
-            okA = true;
-            okB = K2 == 2 ? abs128(c2) <= P53 : fitsk(K2, c2);
-            exA = abs128(A) <= P53;
-            exB = okB && abs128(B) <= P53;
-        }
-        if (okA) {
-            auto const c  = v.as<R1>();
-            auto const re = ECT(E1{c}).count();
-            auto const rs = SCT(S1{c}).count();
-            REQUIRE(k, same(re, rs), "common_type_t<" + n1() + "," + n2() + ">(" + n1() + "(" + vstr(c) + ")).count(): etl " + vstr(re) + " std::chrono " + vstr(rs));
-            if (exA) {
-                RC ex = exact_as<RC>(A, v.scale());
-                REQUIRE(k, same(re, ex), "common_type_t<" + n1() + "," + n2() + ">(" + n1() + "(" + vstr(c) + ")).count(): etl " + vstr(re) + " exact " + vstr(ex));
-            }
-            ++g_t.n[S_COMMON];
-        }
-        if (okB) {
-            auto const c  = static_cast<R2>(c2);
-            auto const re = ECT(E2{c}).count();
-            auto const rs = SCT(S2{c}).count();
-            REQUIRE(k, same(re, rs), "common_type_t<" + n1() + "," + n2() + ">(" + n2() + "(" + vstr(c) + ")).count(): etl " + vstr(re) + " std::chrono " + vstr(rs));
-            if (exB) {
-                RC ex = exact_as<RC>(B, 1);
-                REQUIRE(k, same(re, ex), "common_type_t<" + n1() + "," + n2() + ">(" + n2() + "(" + vstr(c) + ")).count(): etl " + vstr(re) + " exact " + vstr(ex));
-            }
-            ++g_t.n[S_COMMON];
-        }
+    auto const what = [&] { return std::string(std::string(sub) + "<" + g.n2() + ">(" + g.n1() + "(" + nstr(g.k1, c) + "))"); };
+    REQUIRE(k, xsame(g.k2, rs, ex), "oracle disagreement (harness bug): std::chrono::" + what() + " = " + nstr(g.k2, rs) + ", exact " + nstr(g.k2, ex));
+    REQUIRE(k, xsame(g.k2, re, ex), what() + ": etl " + nstr(g.k2, re) + " expected " + nstr(g.k2, ex) + " (exact value " + s128(dom.num) + "/" + s128(dom.den) + ")");
+    bool const tie = which == 2 && q_tie(dom.num, dom.den);
+    if (which == 2) { lab(L_TIE, tie); }
+    ++g_t.n[which == 0 ? S_FLOOR : which == 1 ? S_CEIL : S_ROUND];
+    if ((tie && (v.n == -7 || v.n == -1995 || v.n == 1500)) || (which != 2 && v.n == -1999 && g.D != 1 && v.frac == 0)) {
+        vf::sample(sub, [&] { return what() + " == " + nstr(g.k2, re) + " (exact " + s128(dom.num) + "/" + s128(dom.den) + ")"; });
     }
+}
 
-    // ---------------------------------------------------------------- implicit / explicit converting constructor
-    static void convert(Val v)
-    {
-        Case k = mk("convert", v);
-        vf::Flight<Case> fl("convert", k);
-        constexpr bool e_impl = std::is_convertible_v<E1, E2>;
-        constexpr bool s_impl = std::is_convertible_v<S1, S2>;
-        constexpr bool e_ctor = std::is_constructible_v<E2, E1>;
-        constexpr bool s_ctor = std::is_constructible_v<S2, S1>;
-        REQUIRE(k, e_impl == s_impl && e_ctor == s_ctor,
-            n1() + " -> " + n2() + ": is_convertible etl " + vstr(e_impl) + " std " + vstr(s_impl) + ", is_constructible etl " + vstr(e_ctor) + " std " + vstr(s_ctor));
-        if constexpr (e_ctor && s_ctor) {
-            auto const dom = cast_dom(M, v);
-            if (!dom.ok) { return; }
-            auto const c  = v.as<R1>();
-            auto const re = E2(E1{c}).count();
-            auto const rs = S2(S1{c}).count();
-            REQUIRE(k, same(re, rs), n2() + "(" + n1() + "(" + vstr(c) + ")).count() [converting constructor]: etl " + vstr(re) + " std::chrono " + vstr(rs));
-            if (dom.exact) {
-                R2 ex = K2 == 2 ? exact_as<R2>(dom.num / M.D, v.scale()) : exact_as<R2>(q_trunc(dom.num, dom.den), 1);
-                REQUIRE(k, same(re, ex), n2() + "(" + n1() + "(" + vstr(c) + ")).count() [converting constructor]: etl " + vstr(re) + " exact " + vstr(ex));
-            }
-            ++g_t.n[S_CONVERT];
-        }
+void chk_common(GroupDesc const& g, Val v, i64 c2)
+{
+    Case k = mk(g, "common", v, c2);
+    vf::Flight<Case> fl("common", k);
+    auto const& fe = g.e->facts;
+    auto const& fs = g.s->facts;
+    auto const ctn = [&] { return std::string("common_type_t<" + g.n1() + "," + g.n2() + ">"); };
+    // compile-time facts, reported at run time
+    REQUIRE(k, fe.ct_num == fs.ct_num && fe.ct_den == fs.ct_den, ctn() + "::period: etl " + std::to_string(fe.ct_num) + "/" + std::to_string(fe.ct_den) + " std " + std::to_string(fs.ct_num) + "/" + std::to_string(fs.ct_den));
+    REQUIRE(k, fe.ct_rep == fs.ct_rep && fs.ct_rep == g.kc, ctn() + "::rep differs from std");
+    REQUIRE(k, fs.ct_num == g.ctn && fs.ct_den == g.ctd, "harness model of the common period differs from std (harness bug)");
+    REQUIRE(k, fe.p1_num == PN[g.I] && fe.p1_den == PD[g.I] && fe.r1 == g.k1, g.n1() + "::period / ::rep members wrong");
+    i128 A = i128{v.n} * g.f1;
+    i128 B = i128{c2} * g.f2;
+    bool okA, okB, exA, exB;
+    if (g.kc != 2) {
+        okA = fits64(A) && fitsk(g.kc, A);
+        okB = fits64(B) && fitsk(g.kc, B) && fitsk(g.k2, c2);
+        exA = okA;
+        exB = okB;
+    } else {
+        okA = true;
+        okB = g.k2 == 2 ? abs128(c2) <= P53 : fitsk(g.k2, c2);
+        exA = abs128(A) <= P53;
+        exB = okB && abs128(B) <= P53;
     }
-
-    // ---------------------------------------------------------------- unary members of E1 (only instantiated for I == J, R1 == R2)
-    static void unary(Val v, i64 c2)
-    {
-        if constexpr (I == J && std::is_same_v<R1, R2>) {
-            Case k = mk("unary", v, c2);
-            vf::Flight<Case> fl("unary", k);
-            auto const c = v.as<R1>();
-            auto const s = static_cast<R1>(c2);
-            if constexpr (K1 != 2) {
-                if (!fitsk(K1, c2)) { return; }
-            }
-            auto lim = [](i128 x) { return K1 == 2 ? true : fitsk(K1, x); };
-            i128 n   = v.n; // (scaled) value
-            auto nm  = n1() + "(" + vstr(c) + ")";
-            REQUIRE(k, same(E1{c}.count(), c) && same((+E1{c}).count(), (+S1{c}).count()), "count() / unary + of " + nm);
-            REQUIRE(k, same(E1::zero().count(), S1::zero().count()) && same(E1::min().count(), S1::min().count()) && same(E1::max().count(), S1::max().count()),
-                n1() + "::zero/min/max: etl " + vstr(E1::zero().count()) + " " + vstr(E1::min().count()) + " " + vstr(E1::max().count()) + " std " + vstr(S1::zero().count()) + " " + vstr(S1::min().count()) + " "
-                    + vstr(S1::max().count()));
-            if (lim(-n)) {
-                REQUIRE(k, same((-E1{c}).count(), (-S1{c}).count()) && same((-E1{c}).count(), static_cast<R1>(-c)), "-" + nm + ": etl " + vstr((-E1{c}).count()) + " std " + vstr((-S1{c}).count()));
-                auto const ea = ec::abs(E1{c}).count();
-                auto const sa = sc::abs(S1{c}).count();
-                R1 xa         = c < 0 ? static_cast<R1>(-c) : c;
-                REQUIRE(k, same(ea, sa) && same(ea, xa), "abs(" + nm + "): etl " + vstr(ea) + " std::chrono " + vstr(sa) + " exact " + vstr(xa));
-            }
-            if (lim(n + v.scale()) && lim(n - v.scale())) {
-                E1 a{c}, b{c}, p{c}, q{c};
-                S1 sa{c}, sb{c}, sp{c}, sq{c};
-                auto r1 = (++a).count();
-                auto r2 = (--b).count();
-                auto r3 = (p++).count();
-                auto r4 = (q--).count();
-                REQUIRE(k, same(r1, (++sa).count()) && same(r2, (--sb).count()) && same(r3, (sp++).count()) && same(r4, (sq--).count()) && same(a.count(), sa.count()) && same(b.count(), sb.count()) && same(p.count(), sp.count())
-                               && same(q.count(), sq.count()),
-                    "++/-- of " + nm + ": etl " + vstr(r1) + " " + vstr(r2) + " " + vstr(r3) + " " + vstr(r4) + " then " + vstr(a.count()) + " " + vstr(b.count()) + " " + vstr(p.count()) + " " + vstr(q.count()));
-            }
-            i128 m2 = i128{c2} * v.scale();
-            if (lim(n + m2) && lim(n - m2)) {
-                E1 a{c}, b{c};
-                S1 sa{c}, sb{c};
-                a += E1{s};
-                b -= E1{s};
-                sa += S1{s};
-                sb -= S1{s};
-                REQUIRE(k, same(a.count(), sa.count()) && same(b.count(), sb.count()), nm + " += / -= " + n1() + "(" + vstr(s) + "): etl " + vstr(a.count()) + " " + vstr(b.count()) + " std " + vstr(sa.count()) + " " + vstr(sb.count()));
-            }
-            if (K1 == 2 ? (abs128(i128{v.n} * c2) <= P53) : lim(i128{v.n} * c2)) {
-                E1 a{c};
-                S1 sa{c};
-                a *= s;
-                sa *= s;
-                REQUIRE(k, same(a.count(), sa.count()), nm + " *= " + vstr(s) + ": etl " + vstr(a.count()) + " std " + vstr(sa.count()));
-            }
-            if (c2 != 0 && (K1 == 2 || lim(i128{v.n} / c2))) {
-                E1 a{c};
-                S1 sa{c};
-                a /= s;
-                sa /= s;
-                REQUIRE(k, same(a.count(), sa.count()), nm + " /= " + vstr(s) + ": etl " + vstr(a.count()) + " std " + vstr(sa.count()));
-                if constexpr (K1 != 2) {
-                    E1 b{c}, d{c};
-                    S1 sb{c}, sd{c};
-                    b %= s;
-                    sb %= s;
-                    d %= E1{s};
-                    sd %= S1{s};
-                    REQUIRE(k, b.count() == sb.count() && d.count() == sd.count() && b.count() == static_cast<R1>(v.n % c2),
-                        nm + " %= " + vstr(s) + " / %= duration: etl " + vstr(b.count()) + " " + vstr(d.count()) + " std " + vstr(sb.count()) + " " + vstr(sd.count()));
-                }
-            }
-            ++g_t.n[S_UNARY];
-        } else {
-            (void)v;
-            (void)c2;
-        }
+    if (okA) {
+        Num const c  = v.num(g.k1);
+        Num const re = g.e->common1(c);
+        Num const rs = g.s->common1(c);
+        auto const what = [&] { return std::string(ctn() + "(" + g.n1() + "(" + nstr(g.k1, c) + ")).count()"); };
+        REQUIRE(k, nsame(g.kc, re, rs), what() + ": etl " + nstr(g.kc, re) + " std::chrono " + nstr(g.kc, rs));
+        if (exA) { REQUIRE(k, xsame(g.kc, re, exact_num(g.kc, A, v.scale())), what() + ": etl " + nstr(g.kc, re) + " exact " + nstr(g.kc, exact_num(g.kc, A, v.scale()))); }
+        ++g_t.n[S_COMMON];
     }
-
-    // ---------------------------------------------------------------- lhs (E1, v) op rhs (E2, c2)
-    static void binary(Val v, i64 c2, bool arith)
-    {
-        char const* sub = arith ? "arith" : "cmp";
-        Case k          = mk(sub, v, c2);
-        vf::Flight<Case> fl(sub, k);
-        if (!fitsk(K2 == 2 ? 1 : K2, c2)) { return; }
-        if (K2 == 2 && abs128(c2) > P53) { return; }
-        i128 A = i128{v.n} * M.f1;              // scaled by v.scale()
-        i128 B = i128{c2} * M.f2 * v.scale();   // same scale
-        bool ok, exact;
-        if constexpr (KC != 2) {
-            ok    = fits64(A) && fitsk(KC, A) && fits64(B) && fitsk(KC, B);
-            exact = ok;
-        } else {
-            ok    = true;
-            exact = abs128(A) <= P53 && abs128(B) <= P53;
-        }
-        if (arith) { lab(L_ARITH_DOM, ok); }
-        if (!ok) { return; }
-        auto const a  = v.as<R1>();
-        auto const b  = static_cast<R2>(c2);
-        auto const nm = n1() + "(" + vstr(a) + ") ";
-        auto const nr = " " + n2() + "(" + vstr(b) + ")";
-        E1 const el{a};
-        E2 const er{b};
-        S1 const sl{a};
-        S2 const sr{b};
-        if (!arith) {
-            bool const e[6] = {el == er, el != er, el < er, el <= er, el > er, el >= er};
-            bool const s[6] = {sl == sr, sl != sr, sl < sr, sl <= sr, sl > sr, sl >= sr};
-            char const* const ops[6] = {"==", "!=", "<", "<=", ">", ">="};
-            bool const x[6] = {A == B, A != B, A < B, A <= B, A > B, A >= B};
-            for (int o = 0; o < 6; ++o) {
-                REQUIRE(k, e[o] == s[o], nm + ops[o] + nr + ": etl " + vstr(e[o]) + " std::chrono " + vstr(s[o]));
-                if (exact) { REQUIRE(k, e[o] == x[o], nm + ops[o] + nr + ": etl " + vstr(e[o]) + " exact " + vstr(x[o])); }
-            }
-            g_t.n[S_CMP] += 6;
-            return;
-        }
-        // + and -
-        if (KC == 2 || (fitsk(KC, A + B) && fitsk(KC, A - B))) {
-            auto const ep = (el + er);
-            auto const sp = (sl + sr);
-            auto const em = (el - er);
-            auto const sm = (sl - sr);
-            REQUIRE(k, (std::is_same_v<typename decltype(ep)::rep, typename decltype(sp)::rep>), "rep of the result of operator+ differs from std");
-            REQUIRE(k, decltype(ep)::period::num == decltype(sp)::period::num && decltype(ep)::period::den == decltype(sp)::period::den, "period of the result of operator+ differs from std");
-            REQUIRE(k, same(ep.count(), sp.count()), nm + "+" + nr + ": etl " + vstr(ep.count()) + " std::chrono " + vstr(sp.count()));
-            REQUIRE(k, same(em.count(), sm.count()), nm + "-" + nr + ": etl " + vstr(em.count()) + " std::chrono " + vstr(sm.count()));
-            if (exact && abs128(A + B) <= (KC == 2 ? P53 : (i128{1} << 100)) && abs128(A - B) <= (KC == 2 ? P53 : (i128{1} << 100))) {
-                RC xp = exact_as<RC>(A + B, v.scale());
-                RC xm = exact_as<RC>(A - B, v.scale());
-                REQUIRE(k, same(ep.count(), xp), nm + "+" + nr + ": etl " + vstr(ep.count()) + " exact " + vstr(xp));
-                REQUIRE(k, same(em.count(), xm), nm + "-" + nr + ": etl " + vstr(em.count()) + " exact " + vstr(xm));
-            }
-            g_t.n[S_ARITH] += 2;
-        }
-        if (B != 0) {
-            if constexpr (KC != 2) {
-                if (!(A == (KC == 0 ? i128{INT32_MIN} : i128{INT64_MIN}) && B == -1)) {
-                    auto const eq = el / er;
-                    auto const sq = sl / sr;
-                    auto const em = el % er;
-                    auto const sm = sl % sr;
-                    REQUIRE(k, (std::is_same_v<decltype(eq), decltype(sq)>), "type of duration / duration differs from std");
-                    REQUIRE(k, eq == sq && eq == static_cast<RC>(A / B), nm + "/" + nr + ": etl " + vstr(eq) + " std::chrono " + vstr(sq) + " exact " + s128(A / B));
-                    REQUIRE(k, em.count() == sm.count() && em.count() == static_cast<RC>(A % B), nm + "%" + nr + ": etl " + vstr(em.count()) + " std::chrono " + vstr(sm.count()) + " exact " + s128(A % B));
-                    REQUIRE(k, decltype(em)::period::num == decltype(sm)::period::num && decltype(em)::period::den == decltype(sm)::period::den, "period of the result of operator% differs from std");
-                    g_t.n[S_ARITH] += 2;
-                }
-            } else {
-                auto const eq = el / er;
-                auto const sq = sl / sr;
-                REQUIRE(k, (std::is_same_v<decltype(eq), decltype(sq)>), "type of duration / duration differs from std");
-                REQUIRE(k, same(eq, sq), nm + "/" + nr + ": etl " + vstr(eq) + " std::chrono " + vstr(sq));
-                if (exact && A % B == 0 && abs128(A / B) <= P53) { REQUIRE(k, same(eq, static_cast<RC>(static_cast<i64>(A / B))), nm + "/" + nr + ": etl " + vstr(eq) + " exact " + s128(A / B)); }
-                g_t.n[S_ARITH] += 1;
-            }
-        }
+    if (okB) {
+        Num const c  = Val{c2, 0}.num(g.k2);
+        Num const re = g.e->common2(c);
+        Num const rs = g.s->common2(c);
+        auto const what = [&] { return std::string(ctn() + "(" + g.n2() + "(" + nstr(g.k2, c) + ")).count()"); };
+        REQUIRE(k, nsame(g.kc, re, rs), what() + ": etl " + nstr(g.kc, re) + " std::chrono " + nstr(g.kc, rs));
+        if (exB) { REQUIRE(k, xsame(g.kc, re, exact_num(g.kc, B, 1)), what() + ": etl " + nstr(g.kc, re) + " exact " + nstr(g.kc, exact_num(g.kc, B, 1))); }
+        ++g_t.n[S_COMMON];
     }
+}
 
-    // ---------------------------------------------------------------- time_point members, comparisons, rounding
-    static void tp(Val v, i64 c2)
-    {
-        Case k = mk("time_point", v, c2);
-        vf::Flight<Case> fl("time_point", k);
-        using ET1 = ec::time_point<ec::system_clock, E1>;
-        using ET2 = ec::time_point<ec::system_clock, E2>;
-        using ST1 = sc::time_point<sc::system_clock, S1>;
-        using ST2 = sc::time_point<sc::system_clock, S2>;
-        auto const a = v.as<R1>();
-        auto const nm = "time_point<system_clock," + n1() + ">(" + vstr(a) + ")";
-        ET1 const et{E1{a}};
-        ST1 const st{S1{a}};
-        REQUIRE(k, same(et.time_since_epoch().count(), st.time_since_epoch().count()) && same(ET1{}.time_since_epoch().count(), R1{}), nm + ".time_since_epoch()");
-        REQUIRE(k, same(ET1::min().time_since_epoch().count(), ST1::min().time_since_epoch().count()) && same(ET1::max().time_since_epoch().count(), ST1::max().time_since_epoch().count()), "time_point::min/max differ from std");
-        // comparisons with a time_point of the other duration type
-        if (fitsk(K2 == 2 ? 1 : K2, c2) && !(K2 == 2 && abs128(c2) > P53)) {
-            i128 A = i128{v.n} * M.f1;
-            i128 B = i128{c2} * M.f2 * v.scale();
-            bool ok, exact;
-            if constexpr (KC != 2) {
-                ok    = fits64(A) && fitsk(KC, A) && fits64(B) && fitsk(KC, B);
-                exact = ok;
-            } else {
-                ok    = true;
-                exact = abs128(A) <= P53 && abs128(B) <= P53;
-            }
-            if (ok) {
-                auto const b = static_cast<R2>(c2);
-                ET2 const eu{E2{b}};
-                ST2 const su{S2{b}};
-                bool const e[6] = {et == eu, et != eu, et < eu, et <= eu, et > eu, et >= eu};
-                bool const s[6] = {st == su, st != su, st < su, st <= su, st > su, st >= su};
-                bool const x[6] = {A == B, A != B, A < B, A <= B, A > B, A >= B};
-                char const* const ops[6] = {"==", "!=", "<", "<=", ">", ">="};
-                for (int o = 0; o < 6; ++o) {
-                    REQUIRE(k, e[o] == s[o] && (!exact || e[o] == x[o]), nm + " " + ops[o] + " time_point<system_clock," + n2() + ">(" + vstr(b) + "): etl " + vstr(e[o]) + " std::chrono " + vstr(s[o]));
-                }
-                g_t.n[S_TP] += 6;
-            }
-        }
-        // floor / ceil / round of a time_point
-        {
-            auto const dom = cast_dom(M, v);
-            bool ok        = dom.ok && dom.exact && round_dom(M, v, q_trunc(dom.num, dom.den));
-            if (ok) {
-                if constexpr (K2 != 2) {
-                    auto const ef = ec::floor<E2>(et).time_since_epoch().count();
-                    auto const ce = ec::ceil<E2>(et).time_since_epoch().count();
-                    auto const er = ec::round<E2>(et).time_since_epoch().count();
-                    auto const sf = sc::floor<S2>(st).time_since_epoch().count();
-                    auto const sce = sc::ceil<S2>(st).time_since_epoch().count();
-                    auto const sr = sc::round<S2>(st).time_since_epoch().count();
-                    REQUIRE(k, ef == sf && ce == sce && er == sr && ef == static_cast<R2>(q_floor(dom.num, dom.den)) && ce == static_cast<R2>(q_ceil(dom.num, dom.den)) && er == static_cast<R2>(q_round_even(dom.num, dom.den)),
-                        "floor/ceil/round<" + n2() + ">(" + nm + "): etl " + vstr(ef) + " " + vstr(ce) + " " + vstr(er) + " std::chrono " + vstr(sf) + " " + vstr(sce) + " " + vstr(sr));
-                    g_t.n[S_TP] += 3;
-                } else {
-                    auto const ef = ec::floor<E2>(et).time_since_epoch().count();
-                    auto const ce = ec::ceil<E2>(et).time_since_epoch().count();
-                    auto const sf = sc::floor<S2>(st).time_since_epoch().count();
-                    auto const sce = sc::ceil<S2>(st).time_since_epoch().count();
-                    REQUIRE(k, same(ef, sf) && same(ce, sce), "floor/ceil<" + n2() + ">(" + nm + "): etl " + vstr(ef) + " " + vstr(ce) + " std::chrono " + vstr(sf) + " " + vstr(sce));
-                    g_t.n[S_TP] += 2;
-                }
-            }
-        }
-        // members that change the time point (same duration type)
-        if constexpr (I == J && std::is_same_v<R1, R2>) {
-            auto lim = [](i128 x) { return K1 == 2 ? abs128(x) <= P53 : fitsk(K1, x); };
-            i128 n   = v.n;
-            i128 m2  = i128{c2} * v.scale();
-            if (lim(n + m2) && lim(n - m2) && lim(n + v.scale()) && lim(n - v.scale()) && fitsk(K1 == 2 ? 1 : K1, c2)) {
-                auto const s = static_cast<R1>(c2);
-                ET1 p{E1{a}}, q{E1{a}}, r{E1{a}}, u{E1{a}}, w{E1{a}}, z{E1{a}};
-                ST1 sp{S1{a}}, sq{S1{a}}, sr{S1{a}}, su{S1{a}}, sw{S1{a}}, sz{S1{a}};
-                p += E1{s};
-                q -= E1{s};
-                sp += S1{s};
-                sq -= S1{s};
-                auto r1 = (++r).time_since_epoch().count();
-                auto r2 = (--u).time_since_epoch().count();
-                auto r3 = (w++).time_since_epoch().count();
-                auto r4 = (z--).time_since_epoch().count();
-                auto s1 = (++sr).time_since_epoch().count();
-                auto s2 = (--su).time_since_epoch().count();
-                auto s3 = (sw++).time_since_epoch().count();
-                auto s4 = (sz--).time_since_epoch().count();
-                REQUIRE(k, same(p.time_since_epoch().count(), sp.time_since_epoch().count()) && same(q.time_since_epoch().count(), sq.time_since_epoch().count()), nm + " += / -= " + vstr(s));
-                REQUIRE(k, same(r1, s1) && same(r2, s2) && same(r3, s3) && same(r4, s4) && same(w.time_since_epoch().count(), sw.time_since_epoch().count()) && same(z.time_since_epoch().count(), sz.time_since_epoch().count()),
-                    nm + " ++/--: etl " + vstr(r1) + " " + vstr(r2) + " " + vstr(r3) + " " + vstr(r4) + " std " + vstr(s1) + " " + vstr(s2) + " " + vstr(s3) + " " + vstr(s4));
-                g_t.n[S_TP] += 6;
-            }
-        }
+void chk_convert(GroupDesc const& g, Val v)
+{
+    Case k = mk(g, "convert", v);
+    vf::Flight<Case> fl("convert", k);
+    auto const& fe = g.e->facts;
+    auto const& fs = g.s->facts;
+    REQUIRE(k, fe.convertible == fs.convertible && fe.constructible == fs.constructible,
+        g.n1() + " -> " + g.n2() + ": is_convertible etl " + std::to_string(fe.convertible) + " std " + std::to_string(fs.convertible) + ", is_constructible etl " + std::to_string(fe.constructible) + " std "
+            + std::to_string(fs.constructible));
+    for (int t = 0; t < 6; ++t) {
+        REQUIRE(k, fe.from_scalar[t] == fs.from_scalar[t], g.n1() + (t < 3 ? ": is_constructible from " : ": is_convertible from ") + kname(t % 3) + ": etl " + std::to_string(fe.from_scalar[t]) + " std " + std::to_string(fs.from_scalar[t]));
     }
+    if (!fe.constructible) { return; }
+    auto const dom = cast_dom(g, v);
+    if (!dom.ok) { return; }
+    Num const c  = v.num(g.k1);
+    Num const re = g.e->convert(c);
+    Num const rs = g.s->convert(c);
+    auto const what = [&] { return std::string(g.n2() + "(" + g.n1() + "(" + nstr(g.k1, c) + ")).count() [converting constructor]"); };
+    REQUIRE(k, nsame(g.k2, re, rs), what() + ": etl " + nstr(g.k2, re) + " std::chrono " + nstr(g.k2, rs));
+    if (dom.exact) { REQUIRE(k, xsame(g.k2, re, cast_exact(g, v, dom)), what() + ": etl " + nstr(g.k2, re) + " exact " + nstr(g.k2, cast_exact(g, v, dom))); }
+    ++g_t.n[S_CONVERT];
+}
 
-    // ---------------------------------------------------------------- driver for one first count
-    static void second_counts(Val v, i64 (&out)[8], int& n)
-    {
-        // counts of the second operand derived from the first: the P2 tick at / next to the same instant, mirrored,
-        // the same number, and small constants
-        i128 q = q_floor(i128{v.n} * M.N, i128{v.scale()} * M.D);
-        n      = 0;
-        auto add = [&](i128 x) {
-            if (!fits64(x)) { return; }
-            for (int t = 0; t < n; ++t) {
-                if (out[t] == static_cast<i64>(x)) { return; }
-            }
-            out[n++] = static_cast<i64>(x);
-        };
-        add(q);
-        add(q + 1);
-        add(-q);
-        add(v.n);
-        add(3);
-        add(-7);
-        add(0);
-    }
+auto cmp_bits(i128 A, i128 B) -> unsigned { return (A == B ? 1U : 0U) | (A != B ? 2U : 0U) | (A < B ? 4U : 0U) | (A <= B ? 8U : 0U) | (A > B ? 16U : 0U) | (A >= B ? 32U : 0U); }
+auto bits_str(unsigned b) -> std::string
+{
+    char const* const ops[6] = {"==", "!=", "<", "<=", ">", ">="};
+    std::string s;
+    for (int o = 0; o < 6; ++o) { s += std::string(o ? " " : "") + ops[o] + ":" + ((b >> o) & 1U ? "1" : "0"); }
+    return s;
+}
 
-    static void one(int sub, Val v, i64 c2)
-    {
-        switch (sub) {
-        case S_CAST: cast(v); break;
-        case S_FLOOR: fcr(v, 0); break;
-        case S_CEIL: fcr(v, 1); break;
-        case S_ROUND: fcr(v, 2); break;
-        case S_COMMON: common(v, c2); break;
-        case S_CONVERT: convert(v); break;
-        case S_UNARY: unary(v, c2); break;
-        case S_ARITH: binary(v, c2, true); break;
-        case S_CMP: binary(v, c2, false); break;
-        case S_TP: tp(v, c2); break;
-        default: break;
-        }
-    }
+// is the second count usable as a value of rep kind k2?
+auto c2_ok(GroupDesc const& g, i64 c2) -> bool { return g.k2 == 2 ? abs128(c2) <= P53 : fitsk(g.k2, c2); }
 
-    static void all(Val v)
-    {
-        cast(v);
-        fcr(v, 0);
-        fcr(v, 1);
-        fcr(v, 2);
-        convert(v);
-        i64 cs[8];
-        int n = 0;
-        second_counts(v, cs, n);
-        for (int t = 0; t < n; ++t) {
-            binary(v, cs[t], true);
-            binary(v, cs[t], false);
-            if (t < 4) { tp(v, cs[t]); }
-            if (t == 0 || t == 4) { common(v, cs[t]); }
-            unary(v, cs[t]);
-        }
-        lab(L_NEG, v.n < 0);
-        lab(L_NONINT, M.D != 1);
-        lab(L_BIG, abs128(v.n) >= (i128{1} << 31));
-    }
-
-    static auto nontrivial(Val v) -> bool { return v.n < 0 || M.D != 1 || q_tie(i128{v.n} * M.N, i128{v.scale()} * M.D); }
-
-    static void entry(int mode, int sub, Val v, i64 c2, vf::Ctx* c)
-    {
-        if (mode == 1) { // replay one case
-            one(sub, v, c2);
-            return;
-        }
-        // ---- the enumerated grid
-        i64 const span = c->thorough() ? 20000 : 2000;
-        std::uint64_t nt = 0;
-        auto run = [&](Val x) {
-            if constexpr (K1 == 0) {
-                if (!fits32(x.n)) { return; }
-            }
-            all(x);
-            if (nontrivial(x)) { ++nt; }
-        };
-        for (i64 n = -span; n <= span; ++n) {
-            run(Val{n, 0});
-            if constexpr (K1 == 2) { run(Val{n, 1}); }
-        }
-        for (i64 base : {i64{1} << 31, i64{1} << 62}) {
-            for (i64 d = -2; d <= 2; ++d) {
-                i64 dd = (K1 == 2 && base > (i64{1} << 53)) ? d * 1024 : d; // stay exactly representable in double
-                run(Val{base + dd, 0});
-                run(Val{-(base + dd), 0});
-            }
-        }
-        if constexpr (K1 == 0) {
-            for (i64 n : {i64{INT32_MAX}, i64{INT32_MAX} - 1, i64{INT32_MIN}, i64{INT32_MIN} + 1}) { run(Val{n, 0}); }
-        } else if constexpr (K1 == 1) {
-            for (i64 n : {INT64_MAX, INT64_MAX - 1, INT64_MIN, INT64_MIN + 1}) { run(Val{n, 0}); }
-        }
-        vf::nontrivial_count(nt);
-        // ---- seeded random counts over the whole range of the rep (bit width chosen uniformly)
-        vf::Rng rng(c->seed * 1000003ULL + static_cast<std::uint64_t>(C * 100 + I * 10 + J));
-        int const nrand = c->thorough() ? 100000 : 1500;
-        for (int r = 0; r < nrand; ++r) {
-            int const maxw = K1 == 0 ? 31 : K1 == 1 ? 63 : 53;
-            auto const w   = static_cast<int>(rng.below(static_cast<std::uint64_t>(maxw))) + 1;
-            auto mag       = static_cast<i64>(rng.next() >> (64 - w));
-            i64 n          = (rng.next() & 1) ? mag : -mag;
-            Val x{n, (K1 == 2 && (rng.next() & 3) == 0 && abs128(n) < (i128{1} << 40)) ? 1 : 0};
-            all(x);
-            if (nontrivial(x)) { vf::nontrivial(vf::mix(vf::mix(vf::mix(0x12ULL, C * 100 + I * 10 + J), x.n), x.frac)); }
-        }
-        vf::sample("cast", [&] { return "duration_cast/floor/ceil/round<" + n2() + ">(" + n1() + "(c)) for every c in [-" + std::to_string(span) + "," + std::to_string(span) + "] and around +-2^31, +-2^62"; });
-    }
+struct BinDom {
+    bool ok, exact;
+    i128 A, B; // both scaled by v.scale()
 };
+auto bin_dom(GroupDesc const& g, Val v, i64 c2) -> BinDom
+{
+    BinDom d{};
+    d.A = i128{v.n} * g.f1;
+    d.B = i128{c2} * g.f2 * v.scale();
+    if (g.kc != 2) {
+        d.ok    = fits64(d.A) && fitsk(g.kc, d.A) && fits64(d.B) && fitsk(g.kc, d.B);
+        d.exact = d.ok;
+    } else {
+        d.ok    = true;
+        d.exact = abs128(d.A) <= P53 && abs128(d.B) <= P53;
+    }
+    return d;
+}
+
+void chk_cmp(GroupDesc const& g, Val v, i64 c2)
+{
+    Case k = mk(g, "cmp", v, c2);
+    vf::Flight<Case> fl("cmp", k);
+    if (!c2_ok(g, c2)) { return; }
+    auto const d = bin_dom(g, v, c2);
+    if (!d.ok) { return; }
+    Num const a = v.num(g.k1);
+    Num const b = Val{c2, 0}.num(g.k2);
+    unsigned const e = g.e->cmp(a, b);
+    unsigned const s = g.s->cmp(a, b);
+    auto const what = [&] { return std::string(g.n1() + "(" + nstr(g.k1, a) + ") <op> " + g.n2() + "(" + nstr(g.k2, b) + ")"); };
+    REQUIRE(k, e == s, what() + ": etl " + bits_str(e) + " std::chrono " + bits_str(s));
+    if (d.exact) { REQUIRE(k, e == cmp_bits(d.A, d.B), what() + ": etl " + bits_str(e) + " exact " + bits_str(cmp_bits(d.A, d.B))); }
+    g_t.n[S_CMP] += 6;
+}
+
+void chk_arith(GroupDesc const& g, Val v, i64 c2)
+{
+    Case k = mk(g, "arith", v, c2);
+    vf::Flight<Case> fl("arith", k);
+    if (!c2_ok(g, c2)) { return; }
+    auto const d = bin_dom(g, v, c2);
+    lab(L_ARITH_DOM, d.ok);
+    if (!d.ok) { return; }
+    auto const& fe = g.e->facts;
+    auto const& fs = g.s->facts;
+    REQUIRE(k, fe.plus_num == fs.plus_num && fe.plus_den == fs.plus_den && fe.plus_rep == fs.plus_rep, "type of " + g.n1() + " + " + g.n2() + " differs from std");
+    REQUIRE(k, fe.div_type == fs.div_type, "type of " + g.n1() + " / " + g.n2() + " differs from std");
+    REQUIRE(k, fe.mod_num == fs.mod_num && fe.mod_den == fs.mod_den && fe.mod_rep == fs.mod_rep, "type of " + g.n1() + " % " + g.n2() + " differs from std");
+    Num const a   = v.num(g.k1);
+    Num const b   = Val{c2, 0}.num(g.k2);
+    auto const nl = [&] { return std::string(g.n1() + "(" + nstr(g.k1, a) + ") "); };
+    auto const nr = [&] { return std::string(" " + g.n2() + "(" + nstr(g.k2, b) + ")"); };
+    if (g.kc == 2 || (fitsk(g.kc, d.A + d.B) && fitsk(g.kc, d.A - d.B))) {
+        Num e[2], s[2];
+        g.e->plus_minus(a, b, e);
+        g.s->plus_minus(a, b, s);
+        REQUIRE(k, nsame(g.kc, e[0], s[0]), nl() + "+" + nr() + ": etl " + nstr(g.kc, e[0]) + " std::chrono " + nstr(g.kc, s[0]));
+        REQUIRE(k, nsame(g.kc, e[1], s[1]), nl() + "-" + nr() + ": etl " + nstr(g.kc, e[1]) + " std::chrono " + nstr(g.kc, s[1]));
+        if (d.exact && (g.kc != 2 || (abs128(d.A + d.B) <= P53 && abs128(d.A - d.B) <= P53))) {
+            REQUIRE(k, xsame(g.kc, e[0], exact_num(g.kc, d.A + d.B, v.scale())), nl() + "+" + nr() + ": etl " + nstr(g.kc, e[0]) + " exact " + nstr(g.kc, exact_num(g.kc, d.A + d.B, v.scale())));
+            REQUIRE(k, xsame(g.kc, e[1], exact_num(g.kc, d.A - d.B, v.scale())), nl() + "-" + nr() + ": etl " + nstr(g.kc, e[1]) + " exact " + nstr(g.kc, exact_num(g.kc, d.A - d.B, v.scale())));
+        }
+        g_t.n[S_ARITH] += 2;
+    }
+    if (d.B != 0) {
+        if (g.kc != 2) {
+            if (d.A == (g.kc == 0 ? i128{INT32_MIN} : i128{INT64_MIN}) && d.B == -1) { return; }
+            Num e[2], s[2];
+            g.e->div_mod(a, b, e);
+            g.s->div_mod(a, b, s);
+            REQUIRE(k, e[0].i == s[0].i && e[0].i == static_cast<i64>(d.A / d.B), nl() + "/" + nr() + ": etl " + nstr(1, e[0]) + " std::chrono " + nstr(1, s[0]) + " exact " + s128(d.A / d.B));
+            REQUIRE(k, e[1].i == s[1].i && e[1].i == static_cast<i64>(d.A % d.B), nl() + "%" + nr() + ": etl " + nstr(1, e[1]) + " std::chrono " + nstr(1, s[1]) + " exact " + s128(d.A % d.B));
+            g_t.n[S_ARITH] += 2;
+        } else {
+            Num e[2], s[2];
+            g.e->div_mod(a, b, e);
+            g.s->div_mod(a, b, s);
+            REQUIRE(k, nsame(2, e[0], s[0]), nl() + "/" + nr() + ": etl " + nstr(2, e[0]) + " std::chrono " + nstr(2, s[0]));
+            if (d.exact && d.A % d.B == 0 && abs128(d.A / d.B) <= P53) { REQUIRE(k, xsame(2, e[0], exact_num(2, d.A / d.B, 1)), nl() + "/" + nr() + ": etl " + nstr(2, e[0]) + " exact " + s128(d.A / d.B)); }
+            g_t.n[S_ARITH] += 1;
+        }
+    }
+}
+
+void chk_unary(GroupDesc const& g, Val v, i64 c2)
+{
+    if (!g.same12()) { return; }
+    Case k = mk(g, "unary", v, c2);
+    vf::Flight<Case> fl("unary", k);
+    int const K = g.k1;
+    if (!c2_ok(g, c2)) { return; }
+    auto lim    = [K](i128 x) { return K == 2 ? abs128(x) <= (P53 << 3) : fitsk(K, x); };
+    Num const a = v.num(K);
+    Num const s = Val{c2, 0}.num(K);
+    i128 const n  = v.n;                   // scaled value
+    i128 const m2 = i128{c2} * v.scale();  // scaled scalar
+    auto const nm = [&] { return std::string(g.n1() + "(" + nstr(K, a) + ")"); };
+    Num e[10], r[10];
+    auto run = [&](int which, int cnt, char const* label) -> bool {
+        g.e->unary(which, a, s, e);
+        g.s->unary(which, a, s, r);
+        for (int t = 0; t < cnt; ++t) {
+            if (!nsame(K, e[t], r[t])) {
+                std::string es, rs;
+                for (int u = 0; u < cnt; ++u) {
+                    es += " " + nstr(K, e[u]);
+                    rs += " " + nstr(K, r[u]);
+                }
+                vf::mismatch("unary", k, std::string(label) + " with d = " + nm() + ", operand " + nstr(K, s) + ": etl" + es + " std::chrono" + rs);
+                return false;
+            }
+        }
+        return true;
+    };
+    if (!run(0, 5, "count(), +d, zero(), min(), max()")) { return; }
+    REQUIRE(k, nsame(K, e[0], a), "count() of " + nm() + " is " + nstr(K, e[0]));
+    if (lim(-n)) {
+        if (!run(1, 2, "-d, abs(d)")) { return; }
+        Num const xn = exact_num(K, -n, v.scale());
+        Num const xa = exact_num(K, abs128(n), v.scale());
+        {
+            REQUIRE(k, xsame(K, e[0], xn) && xsame(K, e[1], xa), "-d, abs(d) for d = " + nm() + ": etl " + nstr(K, e[0]) + " " + nstr(K, e[1]) + " exact " + nstr(K, xn) + " " + nstr(K, xa));
+        }
+    }
+    if (lim(n + v.scale()) && lim(n - v.scale())) {
+        if (!run(2, 8, "++d, --d, d++, d-- and the values left behind")) { return; }
+    }
+    if (lim(n + m2) && lim(n - m2)) {
+        if (!run(3, 2, "d += operand, d -= operand")) { return; }
+        REQUIRE(k, xsame(K, e[0], exact_num(K, n + m2, v.scale())) && xsame(K, e[1], exact_num(K, n - m2, v.scale())), nm() + " += / -= " + nstr(K, s) + ": etl " + nstr(K, e[0]) + " " + nstr(K, e[1]));
+    }
+    if (K == 2 ? abs128(n * c2) <= P53 : lim(n * c2)) {
+        if (!run(4, 1, "d *= operand")) { return; }
+        REQUIRE(k, xsame(K, e[0], exact_num(K, n * c2, v.scale())), nm() + " *= " + nstr(K, s) + ": etl " + nstr(K, e[0]));
+    }
+    if (c2 != 0 && (K == 2 || lim(n / c2))) {
+        if (!run(5, 1, "d /= operand")) { return; }
+        if (K != 2) {
+            REQUIRE(k, e[0].i == static_cast<i64>(n / c2), nm() + " /= " + nstr(K, s) + ": etl " + nstr(K, e[0]));
+            if (!run(6, 2, "d %= operand, d %= duration(operand)")) { return; }
+            REQUIRE(k, e[0].i == static_cast<i64>(n % c2) && e[1].i == static_cast<i64>(n % c2), nm() + " %= " + nstr(K, s) + ": etl " + nstr(K, e[0]) + " " + nstr(K, e[1]) + " exact " + s128(n % c2));
+        }
+    }
+    ++g_t.n[S_UNARY];
+}
+
+void chk_tp(GroupDesc const& g, Val v, i64 c2, bool full = true)
+{
+    Case k = mk(g, "time_point", v, c2);
+    vf::Flight<Case> fl("time_point", k);
+    Num const a   = v.num(g.k1);
+    auto const nm = [&] { return std::string("time_point<system_clock," + g.n1() + ">(" + nstr(g.k1, a) + ")"); };
+    if (full) {
+        Num e[4], s[4];
+        g.e->tp_misc(a, e);
+        g.s->tp_misc(a, s);
+        REQUIRE(k, nsame(g.k1, e[0], a) && nsame(g.k1, e[0], s[0]) && nsame(g.k1, e[1], s[1]), nm() + ".time_since_epoch() / default constructed: etl " + nstr(g.k1, e[0]) + " " + nstr(g.k1, e[1]));
+        REQUIRE(k, nsame(g.k1, e[2], s[2]) && nsame(g.k1, e[3], s[3]), "time_point::min()/max(): etl " + nstr(g.k1, e[2]) + " " + nstr(g.k1, e[3]) + " std " + nstr(g.k1, s[2]) + " " + nstr(g.k1, s[3]));
+        g_t.n[S_TP] += 2;
+    }
+    if (c2_ok(g, c2)) {
+        auto const d = bin_dom(g, v, c2);
+        if (d.ok) {
+            Num const b      = Val{c2, 0}.num(g.k2);
+            unsigned const e = g.e->tp_cmp(a, b);
+            unsigned const s = g.s->tp_cmp(a, b);
+            auto const what = [&] { return std::string(nm() + " <op> time_point<system_clock," + g.n2() + ">(" + nstr(g.k2, b) + ")"); };
+            REQUIRE(k, e == s && (!d.exact || e == cmp_bits(d.A, d.B)), what() + ": etl " + bits_str(e) + " std::chrono " + bits_str(s));
+            g_t.n[S_TP] += 6;
+        }
+    }
+    if (full) {
+        auto const dom = cast_dom(g, v);
+        bool ok        = dom.ok && dom.exact && round_dom(g, v, q_trunc(dom.num, dom.den));
+        if (ok) {
+            Num e[3], s[3], x[3];
+            g.e->tp_fcr(a, e);
+            g.s->tp_fcr(a, s);
+            int const cnt = g.k2 == 2 ? 2 : 3;
+            if (g.k2 == 2) {
+                x[0] = x[1] = cast_exact(g, v, dom);
+            } else {
+                x[0] = exact_num(g.k2, q_floor(dom.num, dom.den), 1);
+                x[1] = exact_num(g.k2, q_ceil(dom.num, dom.den), 1);
+                x[2] = exact_num(g.k2, q_round_even(dom.num, dom.den), 1);
+            }
+            for (int t = 0; t < cnt; ++t) {
+                REQUIRE(k, nsame(g.k2, e[t], s[t]) && xsame(g.k2, e[t], x[t]),
+                    std::string(t == 0 ? "floor" : t == 1 ? "ceil" : "round") + "<" + g.n2() + ">(" + nm() + "): etl " + nstr(g.k2, e[t]) + " std::chrono " + nstr(g.k2, s[t]) + " exact " + nstr(g.k2, x[t]));
+            }
+            g_t.n[S_TP] += static_cast<std::uint64_t>(cnt);
+        }
+    }
+    if (full && g.same12() && c2_ok(g, c2)) {
+        int const K = g.k1;
+        auto lim    = [K](i128 x) { return K == 2 ? abs128(x) <= P53 : fitsk(K, x); };
+        i128 n      = v.n;
+        i128 m2     = i128{c2} * v.scale();
+        if (lim(n + m2) && lim(n - m2) && lim(n + v.scale()) && lim(n - v.scale())) {
+            Num const s = Val{c2, 0}.num(K);
+            Num e[10], r[10];
+            g.e->tp_members(a, s, e);
+            g.s->tp_members(a, s, r);
+            for (int t = 0; t < 10; ++t) {
+                REQUIRE(k, nsame(K, e[t], r[t]), nm() + " members (+= -= ++pre --pre post++ post-- and the values left behind), item " + std::to_string(t) + " with operand " + nstr(K, s) + ": etl " + nstr(K, e[t]) + " std::chrono " + nstr(K, r[t]));
+            }
+            g_t.n[S_TP] += 6;
+        }
+    }
+}
+
+// counts of the second operand derived from the first: the P2 tick at / next to the same instant, mirrored,
+// the same number, and small constants
+void second_counts(GroupDesc const& g, Val v, i64 (&out)[8], int& n)
+{
+    i128 q   = q_floor(i128{v.n} * g.N, i128{v.scale()} * g.D);
+    n        = 0;
+    auto add = [&](i128 x) {
+        if (!fits64(x)) { return; }
+        for (int t = 0; t < n; ++t) {
+            if (out[t] == static_cast<i64>(x)) { return; }
+        }
+        out[n++] = static_cast<i64>(x);
+    };
+    add(q);
+    add(q + 1);
+    add(-q);
+    add(v.n);
+    add(3);
+    add(-7);
+    add(0);
+}
+
+void run_one(GroupDesc const& g, int sub, Val v, i64 c2)
+{
+    switch (sub) {
+    case S_CAST: chk_cast(g, v); break;
+    case S_FLOOR: chk_fcr(g, v, 0); break;
+    case S_CEIL: chk_fcr(g, v, 1); break;
+    case S_ROUND: chk_fcr(g, v, 2); break;
+    case S_COMMON: chk_common(g, v, c2); break;
+    case S_CONVERT: chk_convert(g, v); break;
+    case S_UNARY: chk_unary(g, v, c2); break;
+    case S_ARITH: chk_arith(g, v, c2); break;
+    case S_CMP: chk_cmp(g, v, c2); break;
+    case S_TP: chk_tp(g, v, c2); break;
+    default: break;
+    }
+}
+
+void run_all(GroupDesc const& g, Val v)
+{
+    chk_cast(g, v);
+    chk_fcr(g, v, 0);
+    chk_fcr(g, v, 1);
+    chk_fcr(g, v, 2);
+    chk_convert(g, v);
+    i64 cs[8];
+    int n = 0;
+    second_counts(g, v, cs, n);
+    for (int t = 0; t < n; ++t) {
+        chk_arith(g, v, cs[t]);
+        chk_cmp(g, v, cs[t]);
+        if (t < 4) { chk_tp(g, v, cs[t], t == 0); }
+        if (t == 0 || t == 4) { chk_common(g, v, cs[t]); }
+        chk_unary(g, v, cs[t]);
+    }
+    lab(L_NEG, v.n < 0);
+    lab(L_NONINT, g.D != 1);
+    lab(L_BIG, abs128(v.n) >= (i128{1} << 31));
+}
+
+auto nontrivial(GroupDesc const& g, Val v) -> bool { return v.n < 0 || g.D != 1 || q_tie(i128{v.n} * g.N, i128{v.scale()} * g.D); }
+
+void run_group(GroupDesc const& g, vf::Ctx& c)
+{
+    if (g.broken != nullptr) {
+        Case k{"common", g.C, g.I, g.J, 0, 0, 0};
+        vf::Flight<Case> fl("common", k);
+        vf::mismatch("common", k,
+            "common_type of duration<" + per_name(g.I) + "> and duration<" + per_name(g.J) + "> is ill-formed: etl::lcm(" + std::to_string(g.ba) + ", " + std::to_string(g.bb)
+                + ") is not a constant expression (overflow in m*n although the result " + std::to_string(std::lcm(g.ba, g.bb)) + " is representable)");
+        return;
+    }
+    int const K1     = g.k1;
+    i64 const span   = c.thorough() ? 20000 : 2000;
+    std::uint64_t nt = 0;
+    auto run         = [&](Val x) {
+        if (K1 == 0 && !fits32(x.n)) { return; }
+        run_all(g, x);
+        if (nontrivial(g, x)) { ++nt; }
+    };
+    for (i64 n = -span; n <= span; ++n) {
+        run(Val{n, 0});
+        if (K1 == 2) { run(Val{n, 1}); }
+    }
+    for (i64 base : {i64{1} << 31, i64{1} << 62}) {
+        for (i64 d = -2; d <= 2; ++d) {
+            i64 dd = (K1 == 2 && base > (i64{1} << 53)) ? d * 1024 : d; // stay exactly representable in double
+            run(Val{base + dd, 0});
+            run(Val{-(base + dd), 0});
+        }
+    }
+    if (K1 == 0) {
+        for (i64 n : {i64{INT32_MAX}, i64{INT32_MAX} - 1, i64{INT32_MIN}, i64{INT32_MIN} + 1}) { run(Val{n, 0}); }
+    } else if (K1 == 1) {
+        for (i64 n : {INT64_MAX, INT64_MAX - 1, INT64_MIN, INT64_MIN + 1}) { run(Val{n, 0}); }
+    }
+    // exact ties: count*N/D = m + 1/2  <=>  D even and count = (D/2) * t with t odd (N is odd then)
+    if (g.D % 2 == 0) {
+        for (i64 t = -41; t <= 41; t += 2) {
+            i128 c = i128{g.D / 2} * t;
+            if (fits64(c) && (K1 != 2 || abs128(c) <= P53)) { run(Val{static_cast<i64>(c), 0}); }
+        }
+    }
+    if (K1 == 2) { // with counts n/8: ties whenever n*N/(8*D) = m + 1/2, e.g. N = D: n = 4 (mod 8); sweep n = 4t*D for odd t
+        for (i64 t = -41; t <= 41; t += 2) {
+            i128 c = i128{4} * g.D * t;
+            if (abs128(c) <= (i128{1} << 40)) { run(Val{static_cast<i64>(c), 1}); }
+        }
+    }
+    vf::nontrivial_count(nt);
+    // seeded random counts over the whole range of the rep (bit width chosen uniformly)
+    vf::Rng rng(c.seed * 1000003ULL + static_cast<std::uint64_t>(g.C * 100 + g.I * 10 + g.J));
+    int const nrand = c.thorough() ? 100000 : 1500;
+    for (int r = 0; r < nrand; ++r) {
+        int const maxw = K1 == 0 ? 31 : K1 == 1 ? 63 : 53;
+        auto const w   = static_cast<int>(rng.below(static_cast<std::uint64_t>(maxw))) + 1;
+        auto mag       = static_cast<i64>(rng.next() >> (64 - w));
+        i64 n          = (rng.next() & 1) ? mag : -mag;
+        Val x{n, (K1 == 2 && (rng.next() & 3) == 0 && abs128(n) < (i128{1} << 40)) ? 1 : 0};
+        run_all(g, x);
+        if (nontrivial(g, x)) { vf::nontrivial(vf::mix(vf::mix(vf::mix(0x12ULL, g.C * 100 + g.I * 10 + g.J), x.n), x.frac)); }
+    }
+}
 
 // ------------------------------------------------------------------------------------------------ dispatch table
-using Entry = void (*)(int, int, Val, i64, vf::Ctx*);
-
 // etl::common_type<duration, duration> evaluates etl::lcm / etl::gcd of the periods in a constant expression; if that
 // is not a constant expression (signed overflow inside lcm) the duration types of the group cannot even be named.
 // The probe turns that hard error into a run-time failure with a case string.
 template <i64 A, i64 B>
 concept lcm_gcd_const = requires { typename std::integral_constant<int, (etl::lcm(A, B), etl::gcd(A, B), 0)>; };
 
-template <int C, int I, int J, i64 A, i64 B>
-struct Broken {
-    static void entry(int, int, Val, i64, vf::Ctx*)
-    {
-        Case k{"common", C, I, J, 0, 0, 0};
-        vf::Flight<Case> fl("common", k);
-        vf::mismatch("common", k,
-            "common_type of duration<" + per_name(I) + "> and duration<" + per_name(J) + "> is ill-formed: etl::lcm(" + std::to_string(A) + ", " + std::to_string(B)
-                + ") is not a constant expression (overflow in m*n although the result " + std::to_string(std::lcm(A, B)) + " is representable)");
-    }
-};
 // groups are dealt to the slices so that every slice sees every rep combination
 constexpr bool in_slice(int g) { return (g % 100 + 3 * (g / 100)) % C12_NSLICES == C12_SLICE; }
+
 template <int G>
-constexpr auto pick() -> Entry
+constexpr auto desc() -> GroupDesc
 {
     constexpr int C = G / 100, I = (G / 10) % 10, J = G % 10;
     constexpr i64 ctd = std::lcm(PD[I], PD[J]);
+    GroupDesc d       = make_desc(C, I, J);
     if constexpr (!in_slice(G)) {
-        return nullptr;
+        return d;
     } else if constexpr (!lcm_gcd_const<PD[I], PD[J]>) {
-        return &Broken<C, I, J, PD[I], PD[J]>::entry;
-    } else if constexpr (!lcm_gcd_const<ctd, ctd>) { // needed by common_type_t<CT> (unary + and - of the common type)
-        return &Broken<C, I, J, ctd, ctd>::entry;
+        d.broken = "lcm";
+        d.ba     = PD[I];
+        d.bb     = PD[J];
+    } else if constexpr (!lcm_gcd_const<ctd, ctd>) { // needed by common_type_t<CT> (return type of unary + and -)
+        d.broken = "lcm";
+        d.ba     = ctd;
+        d.bb     = ctd;
     } else if constexpr (!lcm_gcd_const<PD[I], PD[I]>) {
-        return &Broken<C, I, J, PD[I], PD[I]>::entry;
+        d.broken = "lcm";
+        d.ba     = PD[I];
+        d.bb     = PD[I];
     } else if constexpr (!lcm_gcd_const<PD[J], PD[J]>) {
-        return &Broken<C, I, J, PD[J], PD[J]>::entry;
-    } else if constexpr (true) {
-        return &Group<typename Combo<C>::r1, typename Combo<C>::r2, I, J, C>::entry;
+        d.broken = "lcm";
+        d.ba     = PD[J];
+        d.bb     = PD[J];
     } else {
-        return nullptr;
+        using R1 = typename Combo<C>::r1;
+        using R2 = typename Combo<C>::r2;
+        d.e      = &Ops<LibE, R1, R2, I, J>::table;
+        d.s      = &Ops<LibS, R1, R2, I, J>::table;
     }
+    return d;
 }
 template <int... G>
-constexpr auto make_table(std::integer_sequence<int, G...>) -> std::array<Entry, sizeof...(G)>
+constexpr auto make_table(std::integer_sequence<int, G...>) -> std::array<GroupDesc, sizeof...(G)>
 {
-    return {pick<G>()...};
+    return {desc<G>()...};
 }
 auto const g_table = make_table(std::make_integer_sequence<int, NCOMBO * 100>{});
+auto present(GroupDesc const& g) -> bool { return g.e != nullptr || g.broken != nullptr; }
 
 // ------------------------------------------------------------------------------------------------ named aliases / literals
 struct AliasFact {
@@ -919,13 +1154,13 @@ void aliases(int only)
         fact<ec::weeks, sc::weeks>("weeks", 22),
         fact<ec::months, sc::months>("months", 20),
         fact<ec::years, sc::years>("years", 17),
-        // literal operators (integer and floating-point forms): type of the result
-        fact<decltype(1_h), decltype(1h)>("1_h", 23),
-        fact<decltype(1_min), decltype(1min)>("1_min", 29),
-        fact<decltype(1_s), decltype(1s)>("1_s", 35),
-        fact<decltype(1_ms), decltype(1ms)>("1_ms", 45),
-        fact<decltype(1_us), decltype(1us)>("1_us", 55),
-        fact<decltype(1_ns), decltype(1ns)>("1_ns", 64),
+        // literal operators: type of the result of the integer forms
+        fact<decltype(1_h), decltype(1h)>("decltype(1_h)", 23),
+        fact<decltype(1_min), decltype(1min)>("decltype(1_min)", 29),
+        fact<decltype(1_s), decltype(1s)>("decltype(1_s)", 35),
+        fact<decltype(1_ms), decltype(1ms)>("decltype(1_ms)", 45),
+        fact<decltype(1_us), decltype(1us)>("decltype(1_us)", 55),
+        fact<decltype(1_ns), decltype(1ns)>("decltype(1_ns)", 64),
     };
     int idx = 0;
     for (auto const& f : facts) {
@@ -938,29 +1173,25 @@ void aliases(int only)
         vf::eval("alias");
         vf::nontrivial_count();
     }
-    {
+    if (only < 0 || only == 100) {
         Case k{"alias", 0, 0, 0, 100, 0, 0};
-        if (only < 0 || only == 100) {
-            vf::Flight<Case> fl("alias", k);
-            REQUIRE(k, (12_h).count() == 12 && (12_min).count() == 12 && (12_s).count() == 12 && (12_ms).count() == 12 && (12_us).count() == 12 && (12_ns).count() == 12, "integer chrono literal does not keep its count");
-            REQUIRE(k, (1.5_h).count() == 1.5L && (1.5_min).count() == 1.5L && (1.5_s).count() == 1.5L && (1.5_ms).count() == 1.5L && (1.5_us).count() == 1.5L && (1.5_ns).count() == 1.5L, "floating chrono literal does not keep its count");
-            REQUIRE(k, (decltype(1.5_h)::period::num == 3600 && decltype(1.5_min)::period::num == 60 && decltype(1.5_s)::period::den == 1 && decltype(1.5_ms)::period::den == 1000 && decltype(1.5_us)::period::den == 1000000
-                           && decltype(1.5_ns)::period::den == 1000000000),
-                "floating chrono literal has the wrong period");
-            vf::eval("alias");
-        }
+        vf::Flight<Case> fl("alias", k);
+        REQUIRE(k, (12_h).count() == 12 && (12_min).count() == 12 && (12_s).count() == 12 && (12_ms).count() == 12 && (12_us).count() == 12 && (12_ns).count() == 12, "integer chrono literal does not keep its count");
+        REQUIRE(k, (1.5_h).count() == 1.5L && (1.5_min).count() == 1.5L && (1.5_s).count() == 1.5L && (1.5_ms).count() == 1.5L && (1.5_us).count() == 1.5L && (1.5_ns).count() == 1.5L, "floating chrono literal does not keep its count");
+        REQUIRE(k, (decltype(1.5_h)::period::num == 3600 && decltype(1.5_min)::period::num == 60 && decltype(1.5_s)::period::den == 1 && decltype(1.5_ms)::period::den == 1000 && decltype(1.5_us)::period::den == 1000000
+                       && decltype(1.5_ns)::period::den == 1000000000),
+            "floating chrono literal has the wrong period");
+        vf::eval("alias");
     }
-    // the calendar code of C11 relies on these two: one mean month is 1/12 mean year
-    {
+    // one mean month is 1/12 mean year (uses the aliases in arithmetic, not only their period members)
+    if (only < 0 || only == 101) {
         Case k{"alias", 0, 0, 0, 101, 0, 0};
-        if (only < 0 || only == 101) {
-            vf::Flight<Case> fl("alias", k);
-            auto const m = ec::duration_cast<ec::seconds>(ec::months{12}).count();
-            auto const y = ec::duration_cast<ec::seconds>(ec::years{1}).count();
-            auto const sm = sc::duration_cast<sc::seconds>(sc::months{12}).count();
-            REQUIRE(k, m == y && m == sm, "duration_cast<seconds>(months{12}) = " + std::to_string(m) + ", duration_cast<seconds>(years{1}) = " + std::to_string(y) + ", std::chrono " + std::to_string(sm));
-            vf::eval("alias");
-        }
+        vf::Flight<Case> fl("alias", k);
+        auto const m  = ec::duration_cast<ec::seconds>(ec::months{12}).count();
+        auto const y  = ec::duration_cast<ec::seconds>(ec::years{1}).count();
+        auto const sm = sc::duration_cast<sc::seconds>(sc::months{12}).count();
+        REQUIRE(k, m == y && m == sm, "duration_cast<seconds>(months{12}) = " + std::to_string(m) + ", duration_cast<seconds>(years{1}) = " + std::to_string(y) + ", std::chrono " + std::to_string(sm));
+        vf::eval("alias");
     }
 }
 
@@ -978,10 +1209,10 @@ void vf_run(vf::Ctx& c)
 {
     if (C12_SLICE == 0 && c.shard == 0) { aliases(-1); }
     std::uint64_t work = 0;
-    for (int g = 0; g < NCOMBO * 100; ++g) {
-        if (g_table[static_cast<std::size_t>(g)] == nullptr) { continue; }
+    for (auto const& g : g_table) {
+        if (!present(g)) { continue; }
         if (!c.mine(work++)) { continue; }
-        g_table[static_cast<std::size_t>(g)](0, 0, Val{0, 0}, 0, &c);
+        run_group(g, c);
         flush_tally();
     }
 }
@@ -999,8 +1230,13 @@ std::string vf_replay(std::string const& sub, std::string const& cs)
         aliases(static_cast<int>(c1));
         return "";
     }
-    int const g = combo * 100 + i * 10 + j;
-    if (g < 0 || g >= NCOMBO * 100 || g_table[static_cast<std::size_t>(g)] == nullptr) { return "case belongs to a group that is not compiled into this slice"; }
-    g_table[static_cast<std::size_t>(g)](1, s, Val{static_cast<i64>(c1), frac}, static_cast<i64>(c2), &vf::ctx());
+    int const gi = combo * 100 + i * 10 + j;
+    if (combo < 0 || combo >= NCOMBO || i < 0 || i >= NPER || j < 0 || j >= NPER || !present(g_table[static_cast<std::size_t>(gi)])) { return "case belongs to a group that is not compiled into this slice"; }
+    auto const& g = g_table[static_cast<std::size_t>(gi)];
+    if (g.broken != nullptr) {
+        run_group(g, vf::ctx());
+        return "";
+    }
+    run_one(g, s, Val{static_cast<i64>(c1), frac}, static_cast<i64>(c2));
     return "";
 }
